@@ -30,12 +30,12 @@ def execOutcome (debugOn : Bool) : Res St → CliOut
   | .ok σ => ⟨true, σ.output, debugOn⟩
   | .err _ σ => ⟨false, σ.output, true⟩
   | .terminate _ σ => ⟨false, σ.output, true⟩
-  | .panic _ σ => ⟨false, σ.output, true⟩
+  | .panic _ out => ⟨false, out.reverse.flatten, true⟩
   | .fuel => ⟨false, [], true⟩
 
 /-- the bytes a run displayed before it ended -/
 def displayedBy : Res St → Str
-  | .ok σ => σ.output | .err _ σ => σ.output | .terminate _ σ => σ.output | .panic _ σ => σ.output | .fuel => []
+  | .ok σ => σ.output | .err _ σ => σ.output | .terminate _ σ => σ.output | .panic _ out => out.reverse.flatten | .fuel => []
 
 /-- src: `run(args)`: lex, parse, stop under `--check`, execute, dump the debug buffer to stderr -/
 def cliRun (cfg : Cfg) (fuel : Nat) (c : CliConfig) (src : Str) (world : World) (filePath : Str) : CliOut :=
